@@ -6,6 +6,10 @@ CONSTANTS
   Methods <- Unused
   Shardings <- Unused
   Codes <- Unused
+  MeshDirs <- Unused
+  MeshNames <- Unused
+  Tables <- Unused
+  MeshRewritesInfo = "keepAll"
   CfgSpace <- Unused
   MaxLen = 1000
   AioForwardsMethod = TRUE
